@@ -27,8 +27,21 @@ package build
 //@                  fs.ReadAttr(target.FullOutputs()[k], xattrName, state.XattrsSupported))
 //@ assume func targetBuildMetadataFileName
 //@   pure
-//@ assume func RuleHash
+// RuleHash: the pre-build hash is computed once per target and then reused (a function of the target: `pure`
+// for callers); only a runtime hash, or a post-build hash of a target whose build can modify it, is recomputed.
+// Recomputing the pre-build hash after the build has modified the target would never match the stored one, and
+// every later build would re-run the rule (C03).
+//@ func RuleHash
 //@   pure
+//@   requires state != nil && target != nil
+//@   opt nopanic=off
+//@   opt inline=off
+//@   opt precall=off
+//@   callsite ruleHash recomputed_only_when_it_has_to_be [C03]: \
+//@      (runtime || (postBuild && target.BuildCouldModifyTarget()) || len(target.RuleHash) == 0) && arg_target == target && \
+//@      (arg_runtime == (runtime && (runtime || (postBuild && target.BuildCouldModifyTarget()))) || !runtime)
+//@   ensures memoised_hash_is_reused [C03]: !runtime && !(postBuild && old(target.BuildCouldModifyTarget())) && \
+//@      len(old(target.RuleHash)) != 0 ==> result == old(target.RuleHash)
 // sourceHash hashes the CONTENTS of every source (never modification times, which do not survive a checkout
 // and miss same-second edits); its value is assumed to be a function of the file system (`pure`).
 //@ func sourceHash
@@ -205,7 +218,7 @@ package build
 //@   callsite retrieveArtifacts trackresult retrieved bool: result
 //@   callsite (BuildTarget).SetState reused_only_on_a_fresh_negative_answer [C01 C03 C32]: arg_state == core.Reused ==> \
 //@      called("needsBuilding") && !needs && (target.BuildCouldModifyTarget() ==> rechecked)
-//@   callsite (BuildTarget).SetState built_only_after_the_hash_check [C32 C35]: \
+//@   callsite (BuildTarget).SetState built_only_after_the_hash_check [C32 C35 C03]: \
 //@      (arg_state == core.Built || arg_state == core.Unchanged) ==> \
 //@      called("buildFilegroup") || (called("calculateAndCheckRuleHash") && hasherr == nil)
 //@   callsite moveOutputs metadata_is_stored_first [C32]: called("StoreTargetMetadata") && mderr == nil
